@@ -815,8 +815,10 @@ class Transaction:
         try:
 
             if tx._inputs:
-                # pre-chosen inputs must not be picked a second time by the coin selection below
-                await ledger.reserve_outputs([txi.txo_ref.txo for txi in tx._inputs])
+                # pre-chosen inputs must not be picked a second time by the coin selection below, nor by the
+                # selection of an overlapping build: that one reads, picks and reserves under this lock
+                async with ledger._utxo_reservation_lock:  # pylint: disable=protected-access
+                    await ledger.reserve_outputs([txi.txo_ref.txo for txi in tx._inputs])
 
             for _ in range(5):
 
